@@ -96,6 +96,33 @@ PROPS = {
         "assumptions": [L0_DECIMAL, L0_HANDLES, L0_STD, L1_AMOUNT, "ReportContext stand-in (ctx_stub.rs): CommodityStore::{ensure,resolve} as assumed interface of InternStore (proved in C12)"],
         "not_decided": ["precedence/associativity as produced by the winnow parser (parse/expr.rs)"],
     },
+    "C12": {
+        "level": "proof",
+        "verus": [("intern", None), ("evaluated", ["Evaluated::from_expr_amount_mut", "Evaluated::from_expr_amount"])],
+        "explanation": "Verus proves the alias table on the real InternStore code (HashMap<&str, Option<InternedStr>>): a representation invariant (aliases point at registered canonicals, no chains) is "
+                       "preserved by every operation; resolve/ensure map an alias to the canonical it was declared for and a canonical to itself, never re-point or remove a known name (so a later use of an alias "
+                       "means the canonical in every later state); insert_canonical on an alias is AlreadyAlias and insert_alias on a canonical is AlreadyCanonical with the table unchanged; every commodity name "
+                       "in an evaluated literal goes through ensure/resolve.  The FromInterned impls of Commodity and Account are verified against the trait contract.",
+        "units_doc": ["core/src/report/intern.rs: InternStore::{get,resolve,ensure,insert_canonical,insert_alias,insert_canonical_impl,insert_alias_impl,as_type}, StoredValue::as_canonical, InternedStr::as_str",
+                      "core/src/report/commodity.rs, context.rs: impl FromInterned for Commodity / Account", "core/src/report/eval/evaluated.rs: from_expr_amount(_mut)"],
+        "assumptions": ["assumed (5 axioms, vx/prelude/intern_stub.rs): a &str key is its content — as_static(q) is the stored key equal in content to q; &'static str obeys the HashMap key model; "
+                        "contains_borrowed_key / maps_borrowed_key_to_value / get_key_value for &str keys look up as_static(q)",
+                        "assumed: Bump::alloc_str returns a &str with the same content; InternedStr pointer equality is modelled as content equality (sound while each name is allocated once, which the debug_assert obligations establish)",
+                        "the account use site ctx.accounts.ensure in add_transaction is verified under C01-C03 against the same interface (ctx_stub.rs)"],
+        "not_decided": ["that reports print canonical names (Display / iterator code)", "ProcessAccumulator::process wiring of `account`/`commodity` directives to insert_canonical / insert_alias"],
+    },
+    "C20": {
+        "level": "proof",
+        "verus": [("golden", None)],
+        "explanation": "Verus proves the control logic of the golden helper for all contents and paths over an assumed model of std::fs / std::env: is_update_golden is exactly 'UPDATE_GOLDEN set to a non-empty value'; "
+                       "read_as_utf8 returns the file with CRLF replaced by LF; Golden::new fails on a missing file unless updating; Golden::assert is verified under two contract variants of the same extracted body — "
+                       "(succeeds) when updating or got equals the normalised content the comparison holds, and the only write is of exactly `got` to the golden path under UPDATE_GOLDEN; (fails) when not updating and "
+                       "got differs, no write is reachable and the comparison is reached with different operands (assert_str_eq! panics).",
+        "units_doc": ["golden/src/lib.rs: read_as_utf8, is_update_golden, Golden::new, Golden::assert (two contract variants)"],
+        "assumptions": ["assumed model of std::fs::{read_to_string, write}, std::env::var, std::io::Error (vx/prelude/env_model.rs, rule R21 redirects std:: paths to it): reads/vars are functions of the path/name, fs::write succeeds",
+                        "assumed: str::replace is a function of (text, from, to); assert_str_eq! panics iff its operands differ (R15); Result::{or_else,unwrap_or_default} specs added by hand"],
+        "not_decided": ["what str::replace(\"\\r\\n\", \"\\n\") computes (std)", "real file-system effects"],
+    },
     "C19": {
         "level": "proof",
         "verus": [("columns", None)],
